@@ -102,6 +102,10 @@ def run(ctx):
         from checks import dconc
         dconc.record_and_judge(ctx, {"OwnId"})
     if ctx.prop == "C05":
+        # the client half on histories: a reported code still surfaces after an exchange that went wrong
+        from checks import c06_errors
+        c06_errors.client_histories(ctx)
+    if ctx.prop == "C05":
         # spec growth (not part of the verdict): the method registry as a state machine
         from checks import growth
         growth.safely(ctx, growth.run_registry)
